@@ -67,6 +67,33 @@ def plan_c19(c):
     return 65535 * 65536
 
 
+def mc_topic(c):
+    base = open(vlib.SPEC + "/mc/MC_Topic.cfg").read()
+    free = 5 if c.tier == "thorough" else 4
+    for (forced, n) in (("ForcedNone", free), ("ForcedShare6", 6 + free), ("ForcedShare7", 7 + free),
+                        ("ForcedShareG", 9 + free)):
+        c.tlc_mc("MC_Topic-%s" % forced, "MC_Topic",
+                 cfg_text=base.replace("ForcedNone", forced).replace("MaxChars = 4", "MaxChars = %d" % n), workers=12)
+
+
+def plan_topic(prop, what):
+    def plan(c):
+        mc_topic(c)
+        files, info = c.record("topic", shard=8000)
+        n = c.validate("Trace_Topic", files, cfg="Trace_Topic_%s.cfg" % prop, what=what, procs=10)
+        c.traces += n
+        c.sample_events(files[0])
+        c.sample_events(files[-1], n=2)
+        c.extra["exhaustive"] = True
+        c.extra["exhaustive_domain"] = (
+            "all strings of <= %d characters over the 14-character alphabet {/ + # $ s h a r e x NUL e' euro emoji}, "
+            "16 '$share'-like prefixes x all suffixes of <= %d characters over 7 characters; plus random strings "
+            "around the 65,535-byte limit; filter comparisons over all ordered pairs of a pool" % (
+                (5, 5) if c.tier == "thorough" else (4, 4)))
+        return n
+    return plan
+
+
 NOT_CLAIMED = {}
 
 PLANS = {
@@ -98,6 +125,32 @@ PLANS = {
                             "only, verified on every pair) and on Ap_Pid!InvKeyMonotone"],
             "trusted": SPEC_TRUST},
 }
+
+
+for _p, _what, _claim in (
+        ("C16", "C16 topic filter validation",
+         "The single-pass scanner (as designed) is model-checked against the declarative MQTT 4.7/4.8 rule on all strings "
+         "of the bounded alphabet incl. forced '$share/' prefixes (TLC); the real TopicFilter::is_invalid, the constructor "
+         "and the four packet paths (v3/v5 SUBSCRIBE, UNSUBSCRIBE) are run on every such string and on random strings "
+         "around 65,535 bytes, and each recorded verdict is validated against Topic.tla."),
+        ("C17", "C17 shared-subscription accessors and comparisons",
+         "Uniqueness of the '$share/name/filter' split is checked on the specification (TLC); for every accepted filter of "
+         "the bounded-exhaustive and random sets the recorded accessor results (is_shared, group, filter, info, to_string, "
+         "deref; panics are data) and, for all ordered pairs of a pool, ==, !=, cmp, partial_cmp and hash equality are "
+         "validated against Topic.tla / byte-lexicographic order."),
+        ("C18", "C18 topic name validation",
+         "The topic-name rule is stated declaratively in Topic.tla; the real TopicName::is_invalid, constructor, accessors "
+         "and the six packet paths (v3/v5 PUBLISH, will topic, v5 response topic of PUBLISH and will) are run on every string "
+         "of the bounded alphabet and on random strings around 65,535 bytes and validated against it.")):
+    PLANS[_p] = {"plan": plan_topic(_p, _what), "level": "model_checking", "claim": _claim,
+                 "note": "Trusts Topic.tla (typed from MQTT 4.7 / 4.8.2), TLC, and the harness's frame builder for the "
+                         "in-packet paths (harness/src/topic.rs).",
+                 "technique": "TLA+ spec + TLC model checking of the scanner automaton + trace validation of bounded-"
+                              "exhaustive and random strings run through the real code",
+                 "design_ref": "DESIGN.md section 6, %s" % _p,
+                 "rule": "one case = one string (or ordered pair of filters) run through the real code; distinct by text; "
+                         "all are non-trivial in that each is evaluated against the declarative rule",
+                 "trusted": SPEC_TRUST}
 
 
 def replay(path):
